@@ -44,7 +44,10 @@ pub fn run_check(ctx: &Ctx) -> i32 {
     let mut report = Report::new();
     let (mut states, mut transitions) = (0usize, 0u64);
     let mut per_root = Vec::new();
-    for (name, prefix, d) in [("factory-fresh", vec![], d1), ("one-fabric-commissioned", c08::honest_prefix(), d1), ("two-fabrics-commissioned", two_fabrics(), d2)] {
+    let pending_first = vec![Op::ArmP, Op::CsrP, Op::RootP, Op::AddNocP];
+    let mut pending_update = c08::honest_prefix();
+    pending_update.extend([Op::ArmC(1), Op::CsrUpdC(1), Op::UpdNocC(1)]);
+    for (name, prefix, d) in [("factory-fresh", vec![], d1), ("one-fabric-commissioned", c08::honest_prefix(), d1), ("two-fabrics-commissioned", two_fabrics(), d2), ("first-fabric-pending-under-the-fail-safe", pending_first, d2), ("noc-update-pending-under-the-fail-safe", pending_update, d2)] {
         let r = match c08::bfs(prefix, d, if ctx.tier == Tier::Quick { 4_000 } else { 200_000 }, 11) {
             Ok(r) => r,
             Err(e) => {
